@@ -103,6 +103,27 @@ def controls(rep, M, hdrs):
     rep.control("L7 fires on a little-endian read", bool(r4.violations))
 
 
+def writers_rule(F, rep):
+    """a decoded leaf value is what the generated read_push stored: outside the generated impls (frame::mutable) nothing takes
+    a mutable borrow of, or assigns to, a column of an event struct (Pre/Post/Start/End/Item and their sub-structs), so no
+    hand-written code can overwrite, pop or re-push a decoded field after the fact. Containers (Frame, PortData, Data) are
+    written by the reader itself (ids, item offsets, padding) and are covered by the bracketing/padding rules."""
+    import re
+    leaves = sorted(p for p in F.structs if p.startswith("frame::mutable::") and p.rsplit("::", 1)[1] not in ("Frame", "PortData", "Data"))
+    rx = re.compile(r"^(&(mut )?)*(%s)(<.*>)?$" % "|".join(re.escape(p) for p in leaves))
+    n = 0
+    for b in F.fn_bodies():
+        if b["path"].startswith(("frame::mutable::", "<frame::mutable::")) or " for frame::mutable::" in b["path"]:
+            continue
+        for x, mut in tir.mutable_projections(b["tir"]["value"], rx):
+            n += 1
+            rep.ob("columns.generated-writers-only", not mut, b["path"], "%s.%s" % ((x["base"].get("ty") or "").lstrip("&mut ").rsplit("::", 1)[-1], x.get("name")),
+                   "hand-written code takes a mutable borrow of (or assigns to) the decoded column `%s` of %s: a decoded field could be overwritten after the generated reader stored it" % (x.get("name"), x["base"].get("ty")), tir.sp(x))
+    rep.counts["leaf_column_projections_outside_generated_code"] = n
+    rep.floor("event leaf structs", len(leaves), 8)
+    rep.floor("leaf-column projections outside the generated impls", n, 80)
+
+
 def run(F, rep, tier):
     M = model.Model(F, rep, want=("with_capacity", "push_null", "read_push"))
     rep.floor("generated structs with read_push", len([s for s in model.GEN if M.has(s, "read_push")]), 11)
@@ -121,10 +142,9 @@ def run(F, rep, tier):
     import reach
     from props import C04
     G_ = reach.Graph(F)
-    C04.bracketing_rule(F, G_, rep, M)
+    C04.structure_rules(F, G_, rep, M)
     # .. and absent characters are padded up to the number of frames, or every later row of that character shifts
-    C04.padding_rule(F, G_, rep)
-    C04.data_mut_rule(F, rep)
+    writers_rule(F, rep)
     from props import C10
     C10.same_version_rule(F, rep)
     n_gated = sum(1 for s in model.EVENT_STRUCTS for f in M.spec[s]["fields"] if f.get("since"))
